@@ -6,7 +6,7 @@ WT="$1"; PID="$2"; SLUG="$3"; NEEDS="$4"
 python3 - "$PID" "$SLUG" "$NEEDS" "$WT" <<'P'
 import json,sys
 pid,slug,needs,wt=sys.argv[1:5]
-json.dump({'property':pid,'author':'independent sub-agent (given only the property text, a one-line description of the idea already used by an earlier agent, and its own scratch worktree)',
+json.dump({'property':pid,'author':'independent sub-agent (given only the property text, one-line descriptions of the ideas already used by earlier agents, and its own scratch worktree)',
  'needs':needs,'confirmed':{'tests_with_change':'81 passed','demo_with_change':'non-zero exit','demo_without_change':'exit 0',
  'how':f'tools/confirm_seeded.sh {wt} {pid} {slug} (scratch worktree, removed afterwards)'},
  'run_demo':'WT=<bespokeasm tree> bash demo/demo.sh'}, open(f'/verif/seeded/{slug}/meta.json','w'), indent=1)
